@@ -14,13 +14,13 @@ NOTE = ("Trusted: Lean 4.33.0 kernel (axioms of every theorem ⊆ propext, Class
 T = {
  "C01": ("other", "Theorems (12): the generated contribution test is exact for all clip types / fill rules / integers; about the hand model of the sweep's bookkeeping (Model.Wind, Model.Vertex): inserted edges get exact winding counts, the count update at an intersection is exact, every action of intersectEdges' decision table keeps 'hot iff contributing', and in an abstract sweep every reachable active-edge list satisfies both (sweep_invariant); vertex rings are flagged with exactly their local minima / maxima; about Model.AelOrder (isValidAelOrder, insertLeftEdge): two edges leaving one vertex in different directions are ordered as they lie geometrically above the scanline (exact, within 2^29), different x at the scanline orders by x, the newcomer is inserted after the residents that accept it and before the first that refuses it, and an x-ordered list stays x-ordered. Tie: translator regenerated each run + correspondence stages wind-corr, gen-corr, models-corr. The rest of the sweep's geometry (re-ordering at intersections, horizontals, joins, ring assembly, self-intersection repair) is NOT proved: the end-to-end statement is explored on the real API with a Lean-executed exact winding-number oracle.",
          "End-to-end region equality is exploration only; theorems are about models."),
- "C02": ("other", "Theorems (8): ReverseSolution negates winding and area; about Model.Out: the removal loop of cleanCollinear stops only when no vertex is a duplicate or 180° spike (clean_post), buildPath emits no equal consecutive points and returns the whole cleaned ring. fixSelfIntersects/doSplitOp not modelled. End-to-end (winding ∈ {0,1}, vertex conditions, re-union) explored with the Lean oracle.",
+ "C02": ("other", "Theorems (8): ReverseSolution negates winding and area; about Model.Out: the removal loop of cleanCollinear stops only when no vertex is a duplicate or 180° spike (clean_post), buildPath emits no equal consecutive points and returns the whole cleaned ring. about Model.Split (fixSelfIntersects / doSplitOp; float areas executed, not reasoned about): provenance of every point of the repaired ring and of the records split off, new records are triangles, a split shortens the ring, rings without next-but-one crossings come back unchanged; Model.BuildPaths composes cleanCollinear and the buildPaths loop (tie only). End-to-end (winding ∈ {0,1}, vertex conditions, re-union) explored with the Lean oracle.",
          "End-to-end claim is exploration only."),
  "C03": ("other", "Theorems: totality of Area64, minkowski, checkPrecision (panics exactly outside −8…8) on the generated / hand models; the only fault site of the polygon RectClip state machine is characterised (Props C06 executePoly_fault_iff). Every exported entry point is explored on malformed inputs, touching (glued) polygons and magnitudes up to 2^61 in child processes with watchdog and memory limit. Known finding: int64 product overflow from 2^30.",
          "Totality of the whole API is exploration (fault enumeration over a malformed-input stream), not a theorem."),
  "C04": ("other", "Theorems (7): IsHole alternates with the level (generated code); about Model.Tree (buildTree / recursiveCheckOwners / checkSplitOwner): a record is only ever attached below a placed record with points that contains it, and every record with points is placed exactly once, for every record table and every strict containment order; about Model.PIPOp: pointInOpPolygon is exact within the coordinate domain; about Model.Contain (path1InsidePath2, the exported Path2ContainsPath1, getCleanPath): for rings that do not cross, two strictly inside vertices and none strictly outside give true, the mirror image false, all vertices on the boundary let the bounds' mid-point decide; getCleanPath only drops vertices. NOT true and not proved: that the accepted container is the innermost one — five known findings (two-level misplacements around horizontal touching), three of them pinned to the generated inputs of the registered runs. End-to-end nesting explored with the Lean oracle.",
          "Innermost-parent clause is violated by the code (known findings); end-to-end claim is exploration."),
- "C05": ("other", "Theorems (12): StripDuplicates properties; GetLowestPathInfo picks the path holding the lowest-then-leftmost point among non-zero-area paths and reports its orientation; the decisions of InflatePaths64 (Model.offsetPlan): pass-through below 0.5, polygon groups offset by ±delta according to that orientation with the matching final fill rule. The offset geometry (joins, arcs) is float code and only explored: exact-rational sample points judged by the Lean oracle.",
+ "C05": ("other", "Theorems (12): StripDuplicates properties; GetLowestPathInfo picks the path holding the lowest-then-leftmost point among non-zero-area paths and reports its orientation; the decisions of InflatePaths64 (Model.offsetPlan): pass-through below 0.5, polygon groups offset by ±delta according to that orientation with the matching final fill rule. The float geometry of one closed path before the union (Model.OffsetGeom: normals, concave branch, miter / bevel / square joins) is a bit-exact executable model tied by models-corr offraw, of which only the shape of the output is proved; the metric claims are explored: exact-rational sample points judged by the Lean oracle.",
          "Distance claims are exploration only."),
  "C06": ("other", "Theorems: location algebra of the rectangle (getLocation, adjacency cycle, opposites, edge sets), soundness of the two fast paths of Execute, and about Model.RectPoly (the state machine executeInternal): provenance of every emitted point, no repeated points, the only fault condition. checkEdges / tidyEdgePair are not modelled. End-to-end winding equality inside the rectangle explored with the Lean oracle. Known finding: paths winding twice around a point.",
          "End-to-end claim is exploration; post-processing not modelled."),
@@ -36,13 +36,13 @@ T = {
          "Geometric claims (on the line, inside the rectangle) rest on float intersection code and are exploration."),
  "C12": ("other", "Theorems (12): every field of the four engine structs is classified input / option / scratch / per-call and reset accordingly, no package state is written, no function writes into an element of a slice parameter (regenerated fact tables, decide); the scanline list stays ascending and is visited largest first without repeats (Model.Scan). Explored: random histories against a fresh engine with the same AddPaths calls.",
          "Facts are syntactic; history independence of the whole engine is exploration."),
- "C13": ("other", "Theorems (11): the arithmetic leaves and the list algorithms TrimCollinear64, StripDuplicates, cleanCollinear's loop, buildPath commute with EVERY 64-bit translation (two's complement); exact area is translation invariant (the float ring area areaOP is a hand model tied bit for bit by models-corr areaop at magnitudes up to 2^40); and the negative results: the int64 cross product is wrong from 2^32 (witness). Explored: metamorphic region comparison under translation to 2^52 and scaling, including dense self-intersecting polygons far from the origin (self-intersection repair). Known finding: int64 product overflow.",
+ "C13": ("other", "Theorems (11): the arithmetic leaves and the list algorithms TrimCollinear64, StripDuplicates, cleanCollinear's loop, buildPath commute with EVERY 64-bit translation (two's complement); exact area is translation invariant; the offsetter's edge normals are bit-identical for translated paths (the float ring area areaOP is a hand model tied bit for bit by models-corr areaop at magnitudes up to 2^40); and the negative results: the int64 cross product is wrong from 2^32 (witness). Explored: metamorphic region comparison under translation to 2^52 and scaling, including dense self-intersecting polygons far from the origin (self-intersection repair). Known finding: int64 product overflow.",
          "Magnitude independence is false beyond 2^30 (known finding) and explored below."),
  "C14": ("proof", "Theorems (15) for all operands: 128-bit multiply exact; triSign / productsAreEqual / isCollinear exact except for a factor of exactly +1 (negation proved with witness = known finding); CrossProduct sign exact below 2^29; Area64's accumulator is the exact shoelace sum; bounds exact; PointInPolygon (hand model, 800-line proof) returns IsOn / IsInside / IsOutside exactly as the winding-number specification dictates. Tie: translator regenerated each run + gen-corr + models-corr pip; c14-search replays the witnesses on the real code.",
          "PointInPolygon is a hand model tied by correspondence; float rounding of the final halving of Area64 is not a theorem."),
  "C15": ("proof", "Theorems (10) about the hand model (which calls the generated isCollinear): sub-sequence (cyclic for closed), end points kept, < 3 ⇒ empty, exact area preserved whenever isCollinear is sound; the natural statements that are false are proved false with witnesses that replay on the real code (two-vertex result, non-idempotence, three collinear vertices left) = known findings. Winding-number preservation is explored.",
          "Model tied by correspondence (models-corr trim)."),
- "C16": ("proof", "Theorems (7) about the hand model for any distance function: sub-sequence, paths < 4 returned as they are, each round removes one vertex (termination), and the ε post-condition when the loop stops (770-line invariant proof), which needs symmetry of the distance in its two line points (counter-example proved). Stating it exposed the ε² overflow defect (repaired). Translation / scaling invariance (long oblique edges anywhere within 2^29, both variants) and ε = 0 behaviour are explored; PerpendicDistFromLineSqrD is regenerated and compared bit for bit.",
+ "C16": ("proof", "Theorems (7) about the hand model for any distance function: sub-sequence, paths < 4 returned as they are, each round removes one vertex (termination), and the ε post-condition when the loop stops (770-line invariant proof), which needs symmetry of the distance in its two line points (counter-example proved); the retained indices are invariant under every map that preserves the distance function (simplify_map_invariant). Stating it exposed the ε² overflow defect (repaired). Translation / scaling invariance (long oblique edges anywhere within 2^29, both variants) and ε = 0 behaviour are explored; PerpendicDistFromLineSqrD is regenerated and compared bit for bit.",
          "Model tied by correspondence (models-corr simp64)."),
  "C17": ("other", "Theorems (11): the specified region is invariant under start rotation, repeated / closing vertices, reversal of everything (with the fill rule mirrored), permutation of the path set, translation, swap of subject and clip; no source of nondeterminism in the code (facts). Explored: transformed spellings compared as regions, repeated runs compared exactly.",
          "That the code realises the specification is C01's exploration."),
